@@ -113,9 +113,21 @@ pub fn rstamp(c: &str, x: i64) -> i64 {
     "ex" => if x == ABSENT { 0 } else { 1 },
     "par" => if x == ABSENT { ABSENT } else { x.rem_euclid(2) },
     "any" => 0,
+    "near" => x,
     _ => panic!("harness: unknown resource checker {}", c),
   }
 }
+
+/// is content `cur` inconsistent with `stamp` under resource checker `c`?  (`near` tolerates a distance of one: a
+/// non-transitive "coarse" checker)
+pub fn rinc(c: &str, cur: i64, stamp: i64) -> bool {
+  if c == "near" { (cur - stamp).abs() > 1 } else { rstamp(c, cur) != stamp }
+}
+
+/// what a task observes of a resource it read with checker `c` (a task using `near` observes nothing)
+pub fn robs(c: &str, x: i64) -> i64 { if c == "near" { 0 } else { rstamp(c, x) } }
+/// what a task observes of an output it required with checker `c`
+pub fn oobs(c: &str, o: i64) -> i64 { if c == "near" { 0 } else { ostamp(c, o) } }
 
 /// stamp of (encoded) output `o` under output checker `c`; outputs encode Ok(k) as 2k and Err(k) as 2k+1
 pub fn ostamp(c: &str, o: i64) -> i64 {
@@ -125,6 +137,7 @@ pub fn ostamp(c: &str, o: i64) -> i64 {
     "erreq" => if o % 2 == 1 { o / 2 } else { -1 },
     "res" => o % 2,
     "any" => 0,
+    "near" => o,
     _ => panic!("harness: unknown output checker {}", c),
   }
 }
